@@ -11,15 +11,16 @@ CONSTANTS MaxRecs,
           SKeySets,      \* sets of string keys a record may set
           IssueCounts,   \* numbers of issue lines
           CounterKinds,  \* subset of {"none", "plain", "braced1", "braced3"}
-          NumKinds       \* subset of {"none", "zero", "val"}  (the depth field)
+          NumKinds,      \* subset of {"none", "zero", "val"}  (the depth field)
+          ErrKinds,      \* subset of {"none", "zero", "val"}  (the error field)
+          SepStyles,     \* subset of {"plain", "blanks", "extra"}
+          MultiStyles    \* subset of {"one", "split0", "split1", "lead"}
 
 Orders == {"fwd", "rev"}
-SepStyles == {"plain", "blanks", "extra"}
-MultiStyles == {"one", "split0", "split1", "lead"}
 Comments == BOOLEAN
 
-Shapes == {sh \in [s : SKeySets, ni : IssueCounts, c : CounterKinds, n : NumKinds] :
-              sh.s # {} \/ sh.ni > 0 \/ sh.c # "none" \/ sh.n # "none"}
+Shapes == {sh \in [s : SKeySets, ni : IssueCounts, c : CounterKinds, n : NumKinds, e : ErrKinds] :
+              sh.s # {} \/ sh.ni > 0 \/ sh.c # "none" \/ sh.n # "none" \/ sh.e # "none"}
 
 (* values are opaque: <<record number, key, index>> *)
 V(r, k, j) == <<r, k, j>>
@@ -33,6 +34,7 @@ RecOf(r, sh) ==
         ELSE IF k = "issue" THEN [j \in 1..sh.ni |-> V(r, "issue", j)]
         ELSE IF k = "counter" THEN (IF sh.c = "none" THEN NoCounter ELSE [pre |-> V(r, "counter", 0), bs |-> Buckets(r, sh)])
         ELSE IF k = "depth" THEN (IF sh.n = "val" THEN "7" ELSE "0")
+        ELSE IF k = "error" THEN (IF sh.e = "val" THEN "7" ELSE "0")
         ELSE EmptyRec[k]]
 
 Blank == Line("blank", "", "", <<>>)
@@ -65,8 +67,9 @@ RenderRec(r, sh, st) ==
         g2 == [j \in 1..sh.ni |-> <<Line("field", "issue", V(r, "issue", j), <<>>)>>]
         g3 == IF sh.c = "none" THEN <<>> ELSE <<CounterGroup(r, sh, st.multi, st.cm)>>
         g4 == IF sh.n = "none" THEN <<>> ELSE <<<<Line("field", "depth", IF sh.n = "val" THEN "7" ELSE "0", <<>>)>>>>
+        g5 == IF sh.e = "none" THEN <<>> ELSE <<<<Line("field", "error", IF sh.e = "val" THEN "7" ELSE "0", <<>>)>>>>
         (* issues keep their relative order whatever the field order *)
-        groups == IF st.order = "fwd" THEN g1 \o g2 \o g3 \o g4 ELSE g4 \o g3 \o g2 \o Rev(g1)
+        groups == IF st.order = "fwd" THEN g1 \o g2 \o g3 \o g4 \o g5 ELSE g5 \o g4 \o g3 \o g2 \o Rev(g1)
         spaced == IF st.cm THEN [i \in 1..Len(groups) |-> groups[i] \o <<Blank>>] ELSE groups
     IN Flat(spaced)
 
